@@ -144,6 +144,44 @@ class PCTStrategy(Strategy):
         return best
 
 
+class SlowHolderStrategy(Strategy):
+    """Adversarial schedule family: whichever thread holds the SDK lock created at `site` is slow - at every scheduling point it is
+    passed over while any other thread can run (for at most `budget` consecutive decisions; virtual time is never advanced on its
+    behalf).  Everything that piles up around a long critical section (lock-order inversions, callbacks running inline in the
+    holder, waiters overtaking) is reached; a hang or deadlock found this way is a real one."""
+
+    def __init__(self, base, site, budget=600, stall=0.5):
+        self.base, self.site, self.budget, self.spent = base, site, budget, 0
+        self.stall, self.stalled = stall, 0.0      # total virtual time the holder may be descheduled while runnable (a CPU stall)
+        self.crash_at = getattr(base, "crash_at", None)
+
+    def on_step(self, sched):
+        self.base.on_step(sched)
+
+    def _holds(self, sched, t):
+        for lk in sched.sdk_locks:
+            if lk._owner is t and lk._site == self.site:
+                return True
+        return False
+
+    def choose(self, sched, cands, can_time):
+        slow = [t for t in cands if self._holds(sched, t)]
+        if slow and len(slow) < len(cands) and self.spent < self.budget:
+            self.spent += 1
+            return self.base.choose(sched, [t for t in cands if t not in slow], False)
+        if slow and len(slow) == len(cands) and can_time and self.spent < self.budget:
+            # only the holder is runnable: let it stall while the others' timed waits expire (bounded: a descheduled thread)
+            dl = sched._next_deadline()
+            delta = max(0.0, dl.deadline - sched.now) if dl is not None else None
+            if delta is not None and self.stalled + delta <= self.stall:
+                self.stalled += delta
+                self.spent += 1
+                return "TIME"
+        if not slow:
+            self.spent = 0
+        return self.base.choose(sched, cands, can_time)
+
+
 class ScriptedStrategy(Strategy):
     """Follow a recorded list of choices (thread names or "TIME"); fall back to `fallback` afterwards/if impossible."""
 
@@ -206,6 +244,10 @@ class Scheduler:
         self.on_event = None
 
     # ---- logging ------------------------------------------------------------------------------
+    @property
+    def sdk_locks(self):
+        return _SDK_LOCKS
+
     def log(self, ev: str, **kw):
         _, me = current()
         d = {"seq": len(self.events), "t": round(self.now - EPOCH0, 3), "th": me.name if me else "env", "ev": ev}
@@ -417,6 +459,7 @@ class Scheduler:
         _CURRENT_SCHED = self
         for h in RESET_HOOKS:
             h()
+        del _SDK_LOCKS[:]
         Thread._counter = 0        # default thread names ("Thread-N") restart with every run: recorded choice sequences replay exactly
 
         def main_wrapper():
@@ -449,6 +492,25 @@ class Scheduler:
 # shim primitives
 # ================================================================================================
 
+def _sdk_site():
+    """'<module>.<function>' of the SDK frame that creates a lock (None for locks created elsewhere): a name for the lock that is
+    stable across executions (used by the slow-holder schedules)"""
+    import sys as _sys
+    f = _sys._getframe(2)
+    for _ in range(8):
+        if f is None:
+            return None
+        fn = f.f_code.co_filename
+        if "aws_durable_execution_sdk_python" in fn:
+            return fn.rsplit("/", 1)[-1][:-3] + "." + f.f_code.co_name + ":" + str(f.f_lineno)
+        f = f.f_back
+    return None
+
+
+_SDK_LOCKS: list = []          # SDK-created shim locks of the current run (cleared at the start of every Scheduler.run)
+LOCK_SITES: set = set()        # every SDK lock site seen in this process (informational; used to enumerate slow-holder schedules)
+
+
 class Lock:
     _kind = "Lock"
     _hook = None
@@ -456,6 +518,10 @@ class Lock:
     def __init__(self):
         self._owner = None
         self._uid = None
+        self._site = _sdk_site()
+        if self._site:
+            LOCK_SITES.add(self._site)
+            _SDK_LOCKS.append(self)
 
     def acquire(self, blocking=True, timeout=-1):
         s, me = current()
